@@ -209,7 +209,9 @@ def build (cfg : Cfg) : TyDef → String → Res Ty
   | .map k v, tag =>
       if v.kind = .map then .err else
       match build cfg k "", build cfg v "" with
-      | .ok kc, .ok vc => .ok (.map kc vc (tag == "proto"))
+      | .ok kc, .ok vc =>
+          -- `isProtoSlice(valueCodec)`: an entry holds one value field, the repeated form writes one per element
+          if vc.isProtoSlice then .err else .ok (.map kc vc (tag == "proto"))
       | .ok _, e => e
       | e, _ => e
   | .struct name fs, tag =>
@@ -244,7 +246,9 @@ def buildNamed (cfg : Cfg) (n : String) : TyDef → String → Res Ty
   | .map k v, tag =>
       if v.kind = .map then .err else
       match build cfg k "", build cfg v "" with
-      | .ok kc, .ok vc => .ok (.map kc vc (tag == "proto"))
+      | .ok kc, .ok vc =>
+          -- `isProtoSlice(valueCodec)`: an entry holds one value field, the repeated form writes one per element
+          if vc.isProtoSlice then .err else .ok (.map kc vc (tag == "proto"))
       | .ok _, e => e
       | e, _ => e
   | .struct _ fs, _ =>
